@@ -70,6 +70,9 @@ FILTER_FORMS: dict[str, tuple[str, str, bool]] = {
     "t-plural": ("t", "ngettext", True),
     "t-ctx-plural": ("t", "npgettext", True),
     # `plural: nil` is no plural at all: the lookup is gettext / pgettext
+    # an empty message context written as a literal is still a context for the t filter (pgettext with '')
+    "t-emptyctx": ("t", "pgettext", True),
+    "t-emptyctx-plural": ("t", "npgettext", True),
     "t-nilplural": ("t", "gettext", True),
     "t-ctx-nilplural": ("t", "pgettext", True),
     "gettext": ("gettext", "gettext", True),
@@ -397,6 +400,18 @@ class Builder:
                 self.emit("you:" + self.ws() + self.quote("World"))
                 sep()
             site["context"] = lit("c")
+        elif form == "t-emptyctx":
+            self.emit(":" + self.ws() + self.quote(""))
+            site["context"] = ""
+        elif form == "t-emptyctx-plural":
+            self.emit(":" + self.ws() + self.quote(""))
+            site["context"] = ""
+            sep()
+            self.emit("plural:" + self.ws())
+            site["plural"] = lit("p")
+            sep()
+            self.emit("count:" + self.ws())
+            site["count"] = self.emit_count("t", count_how or "var")
         elif form in ("t-nilplural", "t-ctx-nilplural"):
             self.emit(":" + self.ws())
             parts = ["p"] + (["x"] if form == "t-ctx-nilplural" else [])
